@@ -75,7 +75,6 @@ VARIABLES n, pid, own, ptgt, rank, gk,        \* the input
           pc, stripped, grp, key, out, qv
 vars == <<n, pid, own, ptgt, rank, gk, pc, stripped, grp, key, out, qv>>
 
-Max(S) == CHOOSE x \in S : \A y \in S : y <= x
 \* canonical inputs (every table and grouping is one of these up to renaming and row order):
 \*   rows sorted by descending rank, ranks dense; peptide ids and pair numbers in order of first use
 RankSeqs == [m \in 1..MaxRows |-> {r \in [1..m -> 1..m] : /\ \A i \in 1..(m - 1) : r[i] >= r[i + 1] /\ r[i] <= r[i + 1] + 1
